@@ -1955,8 +1955,8 @@ per-entry steps of the rest: constant `s` for a float step), then the point comp
 `Fa(z₁) + Fb(z₂) + Σ_i W_i (Z_i − X_i)²/(2σ_i)` over all `Z = z₁ ++ z₂`, with the quadratic gap, in
 the concatenated weighted norm with the block-wise steps.  CONDITIONAL on the two part
 properties, which are the conclusions of the leaf theorems (`C07.l1_list_minimises`,
-`C07.huber_list_minimises`, `C07.l1l2_list_minimises`, … — see the example below) or of this
-theorem itself for a nested sum (after rewriting `(xa ++ xb).length`). -/
+`C07.huber_list_minimises`, `C07.l1l2_list_minimises`, … — see the example below) or of
+this theorem itself for a nested sum (after rewriting `(xa ++ xb).length`). -/
 theorem C07.sep_list_minimises (E : Env K) (f rest : Fn K) (wa wb xa xb za zb : List K) (s : K)
     (sig s2 : Sig K) (σb : ℕ → K) (Fa Fb : List K → K)
     (hsig : (sig = .sc s ∧ s2 = .sc s) ∨ (∃ ss, sig = .vec (s :: ss) ∧ s2 = .vec ss))
@@ -2057,6 +2057,126 @@ example :=
         (by norm_num) (by norm_num) (by intro i hi; simp at hi; subst hi; simp)).2
       simp only [mul_add, Finset.sum_add_distrib] at h
       exact h)
+
+
+/-! ### the same statements about the executed objective `groupObj` (stream `group-objective`) -/
+
+/-- `proximal_l1_l2` in terms of the EXECUTED objective `groupObj` (the value
+`lam * GroupL1Norm(X^d, 2)(z − g) + ‖z − x‖²/(2σ)` that the stream `group-objective` compares
+with the real functional and the real product-space norm): the executed proximal point `p`
+satisfies `obj_x(p) + ‖z − p‖²/(2σ) ≤ obj_x(z)` for every `z` of the space — `p` is THE minimiser.
+Same hypotheses as `C07.l1l2_list_minimises` (by which it is proved), base weights as a list. -/
+theorem C07.l1l2_groupObj_minimises (E : Env K) (pw : List K) (d m : ℕ) (lam s : K)
+    (g : Option (List K)) (w x z b : List K) (rd re : ℕ → K)
+    (hsq : ∀ r, 0 ≤ r → E.sqrt (r * r) = r) (hd : 0 < d) (hx : x.length = d * m)
+    (hz : z.length = d * m)
+    (hpw : ∀ k < d, 0 ≤ pw.getD k 1) (hl : 0 < lam) (hs : 0 < s) (hb : ∀ i < m, 0 ≤ b.getD i 0)
+    (hrd : ∀ i < m, 0 ≤ rd i ∧ ∑ k ∈ range d, pw.getD k 1 *
+      ((x.getD (k * m + i) 0 - gAt g (k * m + i)) * (x.getD (k * m + i) 0 - gAt g (k * m + i)))
+        = rd i * rd i)
+    (hre : ∀ i < m, 0 ≤ re i ∧ ∑ k ∈ range d, pw.getD k 1 *
+      ((z.getD (k * m + i) 0 - gAt g (k * m + i)) * (z.getD (k * m + i) 0 - gAt g (k * m + i)))
+        = re i * re i) :
+    let p := Fn.prox E (.l1l2 pw d lam g) w (.sc s) x
+    groupObj E.sqrt (fun t => lam * t) pw d m b g s x p
+        + groupObj E.sqrt (fun _ => 0) pw d m b none s p z
+      ≤ groupObj E.sqrt (fun t => lam * t) pw d m b g s x z := by
+  intro p
+  have key := C07.l1l2_list_minimises E pw d m lam s g w x z (fun i => b.getD i 0) rd re
+    hsq hd hx hpw hl hs hb hrd hre
+  have hp : p.length = d * m := by rw [← hx]; exact key.1
+  rw [groupObj_eq _ _ _ _ _ _ _ _ _ _ hp, groupObj_eq _ _ _ _ _ _ _ _ _ _ hz,
+    groupObj_eq _ _ _ _ _ _ _ _ _ _ hz, ← Finset.sum_add_distrib]
+  refine le_trans (le_of_eq ?_) key.2
+  apply Finset.sum_congr rfl
+  intro i _
+  apply groupObj_add_quad
+  simp only [mul_add, Finset.sum_add_distrib]
+  rfl
+
+/-- `Huber(X^d, γ).proximal`, `γ > 0`, in terms of the EXECUTED objective `groupObj` with the
+per-point model `huberValK` of `Huber._call` (stream `group-objective`):
+`obj_x(p) + ‖z − p‖²/(2σ) ≤ obj_x(z)` for every `z`.  `E.sqrt ≥ 0` is used to identify
+`huberValK` with the Huber function of the theorems. -/
+theorem C07.huberG_groupObj_minimises (E : Env K) (pw : List K) (d m : ℕ) (gam s : K)
+    (w x z b : List K) (rd re : ℕ → K)
+    (hsq : ∀ r, 0 ≤ r → E.sqrt (r * r) = r) (hsq0 : ∀ t, 0 ≤ E.sqrt t)
+    (hd : 0 < d) (hx : x.length = d * m) (hz : z.length = d * m)
+    (hpw : ∀ k < d, 0 ≤ pw.getD k 1) (hg : 0 < gam) (hs : 0 < s) (hb : ∀ i < m, 0 ≤ b.getD i 0)
+    (hrd : ∀ i < m, 0 ≤ rd i ∧ ∑ k ∈ range d, pw.getD k 1 *
+      (x.getD (k * m + i) 0 * x.getD (k * m + i) 0) = rd i * rd i)
+    (hre : ∀ i < m, 0 ≤ re i ∧ ∑ k ∈ range d, pw.getD k 1 *
+      (z.getD (k * m + i) 0 * z.getD (k * m + i) 0) = re i * re i) :
+    let p := Fn.prox E (.huberG pw d gam) w (.sc s) x
+    groupObj E.sqrt (huberValK gam) pw d m b none s x p
+        + groupObj E.sqrt (fun _ => 0) pw d m b none s p z
+      ≤ groupObj E.sqrt (huberValK gam) pw d m b none s x z := by
+  intro p
+  have key := C07.huberG_list_minimises E pw d m gam s w x z (fun i => b.getD i 0) rd re
+    hsq hd hx hpw hg hs hb hrd hre
+  have hp : p.length = d * m := by rw [← hx]; exact key.1
+  rw [groupObj_eq _ _ _ _ _ _ _ _ _ _ hp, groupObj_eq _ _ _ _ _ _ _ _ _ _ hz,
+    groupObj_eq _ _ _ _ _ _ _ _ _ _ hz, ← Finset.sum_add_distrib]
+  simp only [gAt, sub_zero, huberValK_eq gam _ hg (hsq0 _)]
+  refine le_trans (le_of_eq ?_) key.2
+  apply Finset.sum_congr rfl
+  intro i _
+  apply groupObj_add_quad
+  simp only [mul_add, Finset.sum_add_distrib]
+  rfl
+
+/-- The same for `γ = 0` (`Huber._call` returns the group L1-L2 norm itself). -/
+theorem C07.huberG_groupObj_minimises_gamma0 (E : Env K) (pw : List K) (d m : ℕ) (s : K)
+    (w x z b : List K) (rd re : ℕ → K)
+    (hsq : ∀ r, 0 ≤ r → E.sqrt (r * r) = r)
+    (hd : 0 < d) (hx : x.length = d * m) (hz : z.length = d * m)
+    (hpw : ∀ k < d, 0 ≤ pw.getD k 1) (hs : 0 < s) (hb : ∀ i < m, 0 ≤ b.getD i 0)
+    (hrd : ∀ i < m, 0 ≤ rd i ∧ ∑ k ∈ range d, pw.getD k 1 *
+      (x.getD (k * m + i) 0 * x.getD (k * m + i) 0) = rd i * rd i)
+    (hre : ∀ i < m, 0 ≤ re i ∧ ∑ k ∈ range d, pw.getD k 1 *
+      (z.getD (k * m + i) 0 * z.getD (k * m + i) 0) = re i * re i) :
+    let p := Fn.prox E (.huberG pw d 0) w (.sc s) x
+    groupObj E.sqrt (huberValK 0) pw d m b none s x p
+        + groupObj E.sqrt (fun _ => 0) pw d m b none s p z
+      ≤ groupObj E.sqrt (huberValK 0) pw d m b none s x z := by
+  intro p
+  have key := C07.huberG_list_minimises_gamma0 E pw d m s w x z (fun i => b.getD i 0) rd re
+    hsq hd hx hpw hs hb hrd hre
+  have hp : p.length = d * m := by rw [← hx]; exact key.1
+  have hv : ∀ t : K, huberValK 0 t = t := by intro t; simp [huberValK]
+  rw [groupObj_eq _ _ _ _ _ _ _ _ _ _ hp, groupObj_eq _ _ _ _ _ _ _ _ _ _ hz,
+    groupObj_eq _ _ _ _ _ _ _ _ _ _ hz, ← Finset.sum_add_distrib]
+  simp only [gAt, sub_zero, hv]
+  refine le_trans (le_of_eq ?_) key.2
+  apply Finset.sum_congr rfl
+  intro i _
+  apply groupObj_add_quad
+  simp only [mul_add, Finset.sum_add_distrib]
+  rfl
+
+example := C07.l1l2_groupObj_minimises (⟨Real.sqrt, 0⟩ : Env ℝ) [1, 4] 2 2 1 (1 / 2) none
+  [1, 1, 4, 4] [3, 0, 2, 1] [0, 0, 0, 0] [1 / 2, 1 / 2] (fun i => if i = 0 then 5 else 2)
+  (fun _ => 0) (fun r hr => Real.sqrt_mul_self hr) (by norm_num) rfl rfl
+  (by intro k hk; interval_cases k <;> simp) one_pos (by norm_num)
+  (by intro i hi; interval_cases i <;> simp)
+  (by intro i hi; interval_cases i <;> simp [Finset.sum_range_succ, gAt] <;> norm_num)
+  (by intro i hi; interval_cases i <;> simp [Finset.sum_range_succ, gAt])
+
+example := C07.huberG_groupObj_minimises (⟨Real.sqrt, 0⟩ : Env ℝ) [1, 4] 2 2 (1 / 2) 1
+  [1, 1, 4, 4] [3, 0, 2, 1] [0, 0, 0, 0] [1 / 2, 1 / 2] (fun i => if i = 0 then 5 else 2)
+  (fun _ => 0) (fun r hr => Real.sqrt_mul_self hr) Real.sqrt_nonneg (by norm_num) rfl rfl
+  (by intro k hk; interval_cases k <;> simp) (by norm_num) one_pos
+  (by intro i hi; interval_cases i <;> simp)
+  (by intro i hi; interval_cases i <;> simp [Finset.sum_range_succ] <;> norm_num)
+  (by intro i hi; interval_cases i <;> simp [Finset.sum_range_succ])
+
+example := C07.huberG_groupObj_minimises_gamma0 (⟨Real.sqrt, 0⟩ : Env ℝ) [1, 4] 2 2 3
+  [1, 1, 4, 4] [3, 0, 2, 1] [0, 0, 0, 0] [1 / 2, 1 / 2] (fun i => if i = 0 then 5 else 2)
+  (fun _ => 0) (fun r hr => Real.sqrt_mul_self hr) (by norm_num) rfl rfl
+  (by intro k hk; interval_cases k <;> simp) (by norm_num)
+  (by intro i hi; interval_cases i <;> simp)
+  (by intro i hi; interval_cases i <;> simp [Finset.sum_range_succ] <;> norm_num)
+  (by intro i hi; interval_cases i <;> simp [Finset.sum_range_succ])
 
 
 end Group
